@@ -27,4 +27,14 @@ theorem model_window_is_filter (asset : String) (acctName : Nat → String) (per
     ∃ fs, computeFractions sched ins outs intras = .ok fs ∧
       cd.fracs.map (·.f) = fs.filter (fun f => decide (f.ev.ts.day ≤ t) && (match fromD with | none => true | some d => decide (d ≤ f.ev.ts.day))) :=
   compute_fracs_window asset acctName period allowNeg fromD t sched ins outs intras cd h hmono
+/-- **the from-date only hides** (on the `compute` model): with and without a from-date (same to-date) the balances, the average price and
+    the running sums are identical, and the fractions shown — with their `k/n` numbering — are exactly those of the run without a
+    from-date whose taxable event is dated on or after it: counts, balances and price reflect all history up to the to-date -/
+theorem model_from_date_only_hides (asset : String) (acctName : Nat → String) (period : Int) (allowNeg : Bool) (d : Int) (toD : Option Int)
+    (sched : List (Int × Method)) (ins : List InTx) (outs : List OutTx) (intras : List IntraTx) (cd cd0 : Computed)
+    (h : compute asset acctName period allowNeg (some d) toD sched ins outs intras = .ok cd)
+    (h0 : compute asset acctName period allowNeg none toD sched ins outs intras = .ok cd0) :
+    cd.bals = cd0.bals ∧ cd.price = cd0.price ∧ cd.inRun = cd0.inRun ∧ cd.outRun = cd0.outRun ∧ cd.intraRun = cd0.intraRun ∧
+    cd.fracs = cd0.fracs.filter (fun n => decide (d ≤ n.f.ev.ts.day)) :=
+  compute_from_date_only_hides asset acctName period allowNeg d toD sched ins outs intras cd cd0 h h0
 end Rp2.C10
